@@ -353,14 +353,14 @@ type MsgLit struct {
 }
 
 func (r *Run) msgLiteral(fn *Func, arg ast.Expr) *MsgLit {
-	lit := r.P.compositeOf(fn, arg)
+	lit, lfn := r.P.compositeOfIn(fn, arg)
 	if lit == nil {
 		return nil
 	}
-	pk, tn := litTypeName(fn.Info(), lit)
-	ml := &MsgLit{Lit: lit, Pkg: pk, TypeName: tn, Fn: fn}
+	pk, tn := litTypeName(lfn.Info(), lit)
+	ml := &MsgLit{Lit: lit, Pkg: pk, TypeName: tn, Fn: lfn}
 	if tx := litField(lit, "Type"); tx != nil {
-		ml.TypeC = constOf(fn.Info(), tx)
+		ml.TypeC = constOf(lfn.Info(), tx)
 	}
 	return ml
 }
@@ -474,7 +474,12 @@ func (r *Run) returnClass(path *Path) string {
 			if obj != nil && errVarKnownNil(path, i, ev.Fn, obj) {
 				return "nil"
 			}
-			if rhs, _, ok := lastDefOnPath(ev.Fn, path, i, obj); ok && rhs != nil {
+			if rhs, ridx, ok := lastDefOnPath(ev.Fn, path, i, obj); ok && rhs != nil {
+				if res, rfn, ok := r.P.inlinedResults(ev.Fn, rhs); ok && ridx < len(res) {
+					if c := r.errExprClass(path, rfn, res[ridx]); c != "" {
+						return c
+					}
+				}
 				if f, _ := r.calleeOfExpr(ev.Fn, rhs); f != nil {
 					if f == r.M().DataTo {
 						return "decodeErr"
@@ -590,4 +595,33 @@ func errVarKnownNil(path *Path, i int, fn *Func, obj types.Object) bool {
 		return (be.Op == token.EQL) == val
 	}
 	return false
+}
+
+// errExprClass classifies an error expression returned by a looked-into helper: the decode error, the
+// not-joined error, or "" when nothing specific is known.
+func (r *Run) errExprClass(path *Path, fn *Func, x ast.Expr) string {
+	info := fn.Info()
+	if isNilIdent(info, x) {
+		return "nil"
+	}
+	if id, ok := ast.Unparen(x).(*ast.Ident); ok {
+		obj := info.Uses[id]
+		if rhs, _, ok := lastDefOnPath(fn, path, len(path.Events), obj); ok && rhs != nil {
+			if f, _ := r.calleeOfExpr(fn, rhs); f != nil && f == r.M().DataTo {
+				return "decodeErr"
+			}
+		}
+		return ""
+	}
+	notJoined := false
+	ast.Inspect(x, func(n ast.Node) bool {
+		if c := constOfNode(info, n); c != nil && c.Name() == "ErrTypeSessionNotJoined" {
+			notJoined = true
+		}
+		return true
+	})
+	if notJoined {
+		return "notJoinedErr"
+	}
+	return ""
 }
